@@ -271,4 +271,86 @@ theorem chan_of_isMsg {e : Event} (h : e.isMsg = true) : ∃ ch, e.chan? = some 
   | pmessage p ch m => exact ⟨ch, rfl⟩
   | published n => cases h
 
+/-! ### The same for one pattern: after PUNSUBSCRIBE no `pmessage` naming it -/
+
+theorem pat_of_mem_msgBlock {c : ConnId} {ch msg : Bytes} {ds : List Delivery} {p ch' m : Bytes}
+    (h : Event.pmessage p ch' m ∈ msgBlock c ch msg ds) : ((c, some p) : Delivery) ∈ ds := by
+  unfold msgBlock at h
+  simp only [List.mem_map, List.mem_filter, decide_eq_true_eq] at h
+  obtain ⟨d, ⟨hd, hc⟩, he⟩ := h
+  obtain ⟨d1, d2⟩ := d
+  simp only at hc
+  subst hc
+  unfold toEvent at he
+  cases d2 with
+  | none => simp at he
+  | some q =>
+    simp only at he
+    injection he with h1 _ _
+    subst h1
+    exact hd
+
+theorem no_pdelivery_of_not_held {dedup : Bool} {st : State} (hinv : Inv st) {c : ConnId} {p ch : Bytes}
+    (h : p ∉ held st c .pat) : ((c, some p) : Delivery) ∉ publish dedup st ch := by
+  intro hm
+  have hm := mem_publish hm
+  rw [mem_candidates_some hinv, hinv.agree] at hm
+  exact h hm.2
+
+/-- While `c` does not hold pattern `p` and does not subscribe, no `pmessage` naming `p` enters its stream. -/
+theorem quietPat_blocks (dedup : Bool) {c : ConnId} {p : Bytes} : ∀ (ops : List Op) (st : State), Inv st →
+    p ∉ held st c .pat → (∀ op ∈ ops, op.subscribesAs c = false) →
+    ∀ b ∈ Code.blocks dedup st ops c, ∀ ch m, Event.pmessage p ch m ∉ b := by
+  intro ops
+  induction ops with
+  | nil => intro st _ _ _ b hb; cases hb
+  | cons op ops ih =>
+    intro st hinv hq hops b hb ch m he
+    have hop : op.subscribesAs c = false := hops op List.mem_cons_self
+    have hrest := ih (Code.next st op) (hinv.next op) (fun hm => hq (held_next_subset hop _ _ hm))
+      (fun o ho => hops o (List.mem_cons_of_mem _ ho))
+    cases op with
+    | publish q ch' msg =>
+      simp only [Code.blocks, List.mem_cons] at hb
+      rcases hb with hb | hb
+      · subst hb
+        exact no_pdelivery_of_not_held hinv hq (pat_of_mem_msgBlock he)
+      · exact hrest b hb ch m he
+    | subscribe c' k xs => exact hrest b (by simpa [Code.blocks] using hb) ch m he
+    | unsubscribe c' k xs => exact hrest b (by simpa [Code.blocks] using hb) ch m he
+    | disconnect c' => exact hrest b (by simpa [Code.blocks] using hb) ch m he
+
+/-! ### What is certainly gone after (P)UNSUBSCRIBE -/
+
+theorem Spec.heldBy_loop_unsub1 {k : Kind} {c : ConnId} (k' : Kind) (y : Bytes) : ∀ (l : List Bytes) (s : Spec.State),
+    y ∈ Spec.heldBy (loop (Spec.unsub1 k c) s l).1 c k' → y ∈ Spec.heldBy s c k' ∧ (k' = k → y ∉ l) := by
+  intro l
+  induction l with
+  | nil => intro s h; exact ⟨h, fun _ => by simp⟩
+  | cons x l ih =>
+    intro s h
+    have := ih (Spec.unsub1 k c s x).1 (by simpa [loop] using h)
+    simp only [Spec.unsub1] at this
+    rw [Spec.heldBy_filter_ne] at this
+    by_cases hk : k' = k
+    · subst hk
+      simp only [and_self, if_true, mem_srem] at this
+      exact ⟨this.1.1, fun _ => by simp only [List.mem_cons, not_or]; exact ⟨this.1.2, this.2 trivial⟩⟩
+    · simp only [hk, and_false, if_false] at this
+      exact ⟨this.1, fun e => absurd e hk⟩
+
+/-- After `(P)UNSUBSCRIBE` naming `x` (or naming nothing = all) the connection does not hold `x`. -/
+theorem not_held_after_unsubscribe (ops : List Op) (c : ConnId) (k : Kind) (xs : Option (List Bytes)) (x : Bytes)
+    (hx : ∀ l, xs = some l → x ∈ l) : x ∉ held (Code.after {} (ops ++ [Op.unsubscribe c k xs])) c k := by
+  have hrel := Rel.init.after (ops ++ [Op.unsubscribe c k xs])
+  have hspec : Spec.after [] (ops ++ [Op.unsubscribe c k xs]) =
+      (loop (Spec.unsub1 k c) (Spec.after [] ops) (xs.getD (Spec.heldBy (Spec.after [] ops) c k))).1 := by
+    simp [Spec.after, List.foldl_append, Spec.next, Spec.apply, Spec.unsubscribe]
+  rw [← hrel.heldEq, hspec]
+  intro hm
+  obtain ⟨h1, h2⟩ := Spec.heldBy_loop_unsub1 k x _ _ hm
+  cases xs with
+  | none => exact h2 rfl (by simpa using h1)
+  | some l => exact h2 rfl (by simpa using hx l rfl)
+
 end Ferrous.PubSub
